@@ -41,7 +41,7 @@ P['C13'] = {
     'level_text': 'Automaton + kernels: for every state and every input bit update_state follows the HDLC rules (flag opens a frame, a zero after five ones is discarded, seven ones abort, over-long frames are dropped only beyond max_size bytes and without losing the bit that revealed it, a closing flag re-opens); nothing is emitted unless the buffered bits are whole bytes >= min_size and (checksum on, no bit fixing) the CRC equals the FCS; such a frame IS emitted; never Err or panic; work() feeds every bit of its window. Checksum: every FCSTAB entry is the eight-shift function of its index (by computation), calc_crc == bitwise CRC-16/X.25 for messages of EVERY length (loop invariant + register linearity by bit-vector reasoning), find_right_crc repairs only when asked, only by one flipped data bit whose CRC matches, never the FCS (dead loop), and claims nothing if no flip matches. bits2byte for all 256 vectors (Kani). The framing-then-deframing round trip is NOT proved.',
     'level_note': 'The framing state machine is proved rule by rule, not as one stream function; the round trip needs an encoder specification and an induction over bit stuffing. Kani cross-checks calc_crc on the compiled code for lengths 1, 2 (thorough: 3..8).',
     'not_covered': ['end-to-end round trip deframe(frame(p)) == p (needs an encoder spec and an induction over bit stuffing)', 'that a single-bit repair restores the ORIGINAL frame (CRC theory: minimum distance), only that it is a single-bit flip whose CRC matches'],
-    'assumptions': ['spec_byte is tied to bits2byte through the Kani group (all 256 vectors); the clauses unit hdlc assumes of find_right_crc are proved of its body in unit crc', 'chunk independence of HdlcDeframer (C08) is not claimed: the automaton state is carried in self.state and work() applies update_state bit by bit, but no mirror function of the whole automaton is proved'],
+    'assumptions': ['spec_byte is tied to bits2byte through the Kani group (all 256 vectors); the clauses unit hdlc assumes of find_right_crc are proved of its body in unit crc'],
 }
 P['C14'] = {
     'units': ['kani:codecs', 'fsrc', 'tcp', 'au', 'auenc', 'sigmf'],
@@ -68,7 +68,7 @@ _BLOCK_ASSUME = [
 _NOT_COVERED_BLOCKS = [
     'derive-generated sync work() (Tee, Add, Xor, AddConst, XorConst, NrziDecode, Descrambler, SinglePoleIirFilter, QuadratureDemod, BinarySlicer, convert ...): only BOUNDED drip-feed stand-ins (bx:sync, bx:dsp), never counted as proved; their per-sample kernels are under contract in unit kernels / Kani',
     'FftFilterFloat::work (drives two private streams itself): bounded only (bx:dsp)',
-    'HdlcDeframer: per-bit rules proved (C13) but chunk independence as a whole-stream function is not claimed; IL2P header codec (LFSR, RS stripping, field parsing) is a trusted predicate',
+    'IL2P header codec (LFSR, RS stripping, field parsing) is a trusted predicate; which single-bit repair HDLC bit fixing picks is an uninterpreted function of (payload, FCS) (A-PURE)',
     'ToText: bounded only (bx:totext); PduWriter, DebugSink and the other sinks/sources not listed under functions',
     'Wpcr::process_one (FFT planner + iterator pipeline); only its callee find_best_bin and Midpointer::work are under contract',
     'the VALUES computed by floating-point code (C11 n/a): float operations are uninterpreted deterministic functions',
@@ -77,9 +77,9 @@ _NOT_COVERED_BLOCKS = [
 _BU = ['skip', 'delay', 'vsrc', 'v2s', 'consts', 'resampler', 'rtlsdr', 's2pdu', 'hilbert', 'fftstream', 'fftfilter']
 _FIR = ['fir']
 P['C08'] = {
-    'units': list(_BU) + _FIR + ['zc', 'symsync', 'il2p', 'bx:sync', 'bx:dsp', 'bx:totext'],
+    'units': list(_BU) + _FIR + ['zc', 'symsync', 'il2p', 'hdlc', 'bx:sync', 'bx:dsp', 'bx:totext'],
     'technique': 'Verus: each covered work() proved to preserve out.produced == F(in.consumed) under a stream-API contract with a universally quantified environment (any window lengths)',
-    'level_text': 'Deductive proof, no bound, for the blocks listed under functions (Skip, Delay, VectorSource, VecToStream, ConstantSource, NullSink, RationalResampler, FirFilter, RtlSdrDecode, StreamToPdu, Hilbert, FftStream, FftFilter, ZeroCrossing, SymbolSync, Il2pDeframer): the invariant (state, dst.produced) == F(src.consumed) holds after every work() call for every read-window extension and every write-window length, hence for every chunking, every amount of free output space (incl. full) and every wrap position; no panic site in those bodies is reachable. Float arithmetic inside F is uninterpreted. Sync blocks generated by the derive macro and FftFilterFloat are covered by BOUNDED differential runs only (bit-identical output of a roomy run and an adversarial drip-fed run of the same millions of samples), labelled bounded.',
+    'level_text': 'Deductive proof, no bound, for the blocks listed under functions (Skip, Delay, VectorSource, VecToStream, ConstantSource, NullSink, RationalResampler, FirFilter, RtlSdrDecode, StreamToPdu, Hilbert, FftStream, FftFilter, ZeroCrossing, SymbolSync, Il2pDeframer, HdlcDeframer): the invariant (state, dst.produced) == F(src.consumed) holds after every work() call for every read-window extension and every write-window length, hence for every chunking, every amount of free output space (incl. full) and every wrap position; no panic site in those bodies is reachable. Float arithmetic inside F is uninterpreted. Sync blocks generated by the derive macro and FftFilterFloat are covered by BOUNDED differential runs only (bit-identical output of a roomy run and an adversarial drip-fed run of the same millions of samples), labelled bounded.',
     'level_note': 'Subset; see coverage.not_covered. Trusted: stream-API contract (stream_prelude.vx), std shims, determinism of float operations. Where F is spelled out (clock recovery step, PDU rule, resampler rule, overlap-add) a behaviour change that keeps chunk independence still fails the contract and must be accompanied by a contract update.',
     'not_covered': _NOT_COVERED_BLOCKS, 'assumptions': _BLOCK_ASSUME,
 }
